@@ -44,7 +44,10 @@ Record st := mkSt {
   armed : option (op * N);                              (* the one scheduled timer: op and due time *)
   lastPing : N; ponged : bool; lastSeen : N;            (* lastPing sign trick: ponged = sign flipped *)
   exp : N; csr : bool;
-  subs : list sub
+  subs : list sub;
+  seq : N            (* number of ping / pong events so far: the code compares nanosecond timestamps of
+                        these events, which are ordered like the events themselves; lastPing / lastSeen
+                        hold the event numbers *)
 }.
 
 Inductive out :=
@@ -57,11 +60,11 @@ Inductive out :=
 Definition init (g : cfg) : st :=
   mkSt 0 false false false 0 0 0 0
        (if g_stale g =? 0 then None else Some (OpStale, g_stale g))
-       0 false 0 0 false [].
+       0 false 0 0 false [] 0.
 
 Definition upd_armed (s : st) (a : option (op * N)) : st :=
   mkSt (now s) (closed s) (auth s) (unusable s) (nExpire s) (nPresence s) (nPing s) (nPong s) a
-       (lastPing s) (ponged s) (lastSeen s) (exp s) (csr s) (subs s).
+       (lastPing s) (ponged s) (lastSeen s) (exp s) (csr s) (subs s) (seq s).
 
 (* scheduleNextTimer: expire, presence, ping, pong in this order, strict comparisons *)
 Definition pick (s : st) : option (op * N) :=
@@ -77,29 +80,29 @@ Definition schedule (s : st) : st := if closed s then s else upd_armed s (pick s
 
 Definition set_times (s : st) (e pr pi po : N) : st :=
   mkSt (now s) (closed s) (auth s) (unusable s) e pr pi po (armed s)
-       (lastPing s) (ponged s) (lastSeen s) (exp s) (csr s) (subs s).
+       (lastPing s) (ponged s) (lastSeen s) (exp s) (csr s) (subs s) (seq s).
 Definition set_exp (s : st) (e : N) : st :=
   mkSt (now s) (closed s) (auth s) (unusable s) (nExpire s) (nPresence s) (nPing s) (nPong s) (armed s)
-       (lastPing s) (ponged s) (lastSeen s) e (csr s) (subs s).
+       (lastPing s) (ponged s) (lastSeen s) e (csr s) (subs s) (seq s).
 Definition set_subs (s : st) (l : list sub) : st :=
   mkSt (now s) (closed s) (auth s) (unusable s) (nExpire s) (nPresence s) (nPing s) (nPong s) (armed s)
-       (lastPing s) (ponged s) (lastSeen s) (exp s) (csr s) l.
+       (lastPing s) (ponged s) (lastSeen s) (exp s) (csr s) l (seq s).
 Definition set_ping (s : st) (lp : N) (pg : bool) (ls : N) : st :=
   mkSt (now s) (closed s) (auth s) (unusable s) (nExpire s) (nPresence s) (nPing s) (nPong s) (armed s)
-       lp pg ls (exp s) (csr s) (subs s).
+       lp pg ls (exp s) (csr s) (subs s) (seq s + 1).
 
 (* Client.close: status closed, timer stopped *)
 Definition close (s : st) (code : N) : st * list out :=
   if closed s then (s, [])
   else (mkSt (now s) true (auth s) (unusable s) (nExpire s) (nPresence s) (nPing s) (nPong s) None
-             (lastPing s) (ponged s) (lastSeen s) (exp s) (csr s) (subs s), [OClose code]).
+             (lastPing s) (ponged s) (lastSeen s) (exp s) (csr s) (subs s) (seq s), [OClose code]).
 
 (* connectCmd + scheduleOnConnectTimers: [e] credentials expiry (0 none), [c] client-side
    refresh, [fpres] [fping] the randomized first presence / ping delays (inputs) *)
 Definition connect (g : cfg) (s : st) (e : N) (c : bool) (fpres fping : N) : st :=
   if closed s || auth s then s else
   let s1 := mkSt (now s) false true (unusable s) (nExpire s) (nPresence s) (nPing s) (nPong s) (armed s)
-                 (lastPing s) (ponged s) (lastSeen s) e c (subs s) in
+                 (lastPing s) (ponged s) (lastSeen s) e c (subs s) (seq s) in
   let ne := if 0 <? e then now s + (e - now s) + (if c then g_exp_delay g else 0) else nExpire s in
   let np := if 0 <? g_ping g then now s + fping else nPing s in
   schedule (set_times s1 ne (now s + fpres) np (nPong s1)).
@@ -153,7 +156,7 @@ Definition run_op (g : cfg) (s : st) (o : op) : st * list out :=
       if unusable s then close s1 3502 else tick_subs g s1 (subs s1)
   | OpExpire => expire g s
   | OpPing =>
-      let s1 := set_ping s (now s) false (lastSeen s) in
+      let s1 := set_ping s (seq s + 1) false (lastSeen s) in
       let po := if (0 <? g_pong g) && negb (g_uni g) then now s + g_pong g else nPong s in
       (schedule (set_times s1 (nExpire s) (nPresence s) (now s + g_ping g) po), [OPing])
   | OpPong =>
@@ -173,12 +176,15 @@ Definition pong_cmd (s : st) : st * list out :=
   if closed s then (s, []) else
   if negb (auth s) then close s 3501 else
   if (lastPing s =? 0) || ponged s then close s 3501
-  else (set_ping s (lastPing s) true (now s), []).
+  else (set_ping s (lastPing s) true (seq s + 1), []).
 
 (* client refresh command answered by the application with expireAt [e] *)
 Definition refresh_cmd (g : cfg) (s : st) (e : N) : st * list out :=
   if closed s then (s, []) else
-  if negb (csr s) then close s 3501 else
+  (* the application registers a RefreshHandler iff it refreshes client-side or server-side *)
+  if negb (csr s) then
+    match g_refresh g with RNone => (s, [OReply 108]) | _ => close s 3501 end
+  else
   if e =? 0 then (s, [OReply 0]) else
   if now s <? e then
     (schedule (set_times (set_exp s e) (now s + (e - now s) + g_exp_delay g) (nPresence s) (nPing s) (nPong s)),
@@ -215,7 +221,7 @@ Definition add_sub (s : st) (b : sub) : st :=
 
 Definition advance (s : st) (d : N) : st :=
   mkSt (now s + d) (closed s) (auth s) (unusable s) (nExpire s) (nPresence s) (nPing s) (nPong s) (armed s)
-       (lastPing s) (ponged s) (lastSeen s) (exp s) (csr s) (subs s).
+       (lastPing s) (ponged s) (lastSeen s) (exp s) (csr s) (subs s) (seq s).
 
 Inductive label :=
 | LAdvance (d : N)
@@ -234,11 +240,13 @@ Section Step.
     | LAdvance d => Some (advance s d, [])
     | LFire => fire g s
     | LConnect e c fp fi => Some (connect g s e c fp fi, [])
-    | LSubscribe b => Some (add_sub s b, [])
+    (* server-side calls reach only connections registered in the hub, i.e. authenticated ones *)
+    | LSubscribe b => if auth s then Some (add_sub s b, []) else None
+    | LSrvRefresh x e => if auth s then Some (srv g s x e) else None
+    (* client frames before authentication are closed by the dispatch gate (C09) *)
     | LPong => Some (pong_cmd s)
-    | LRefreshCmd e => Some (refresh_cmd g s e)
-    | LSrvRefresh x e => Some (srv g s x e)
-    | LSubRefreshCmd n e => Some (sub_refresh_cmd s n e)
+    | LRefreshCmd e => Some (if auth s then refresh_cmd g s e else close s 3501)
+    | LSubRefreshCmd n e => Some (if auth s then sub_refresh_cmd s n e else close s 3501)
     end.
 
   Fixpoint exec_gen (g : cfg) (s : st) (ls : list label) : option (st * list (list out)) :=
